@@ -195,11 +195,6 @@ func genVip(rt *rapid.T, m *hostModel) (net.IP, string) {
 	}
 }
 
-type c10Probe struct {
-	Host string `json:"host"`
-	Vip  string `json:"vip"`
-}
-
 func c10CheckProbe(tb ev.TB, rec *ev.Rec, sdc *bfe_route.ServerDataConf, tc *hostTableCase, cfgFP string, host string, vip net.IP, classes ...string) {
 	want := tc.Model.resolve(host, vip)
 	req := newReq("GET", host, "/", vip, sdc)
@@ -275,7 +270,7 @@ func TestC10(t *testing.T) {
 	nprobe := 30
 
 	// fixed regression table: documented example + chain order
-	{
+	if !skipFixed {
 		tc := hostTableCase{
 			Model: hostModel{
 				Hosts: []hostEntry{{"example.org", "exampleTag", "example_product"}, {"*.example.org", "wildTag", "wild_product"}, {"*.b.example.org", "wildTag2", "wild2_product"}},
